@@ -66,7 +66,7 @@ impl RandomProp for WellFormed {
         })
     }
     fn cases(env: &Env) -> u64 {
-        env.n(13 * 3000, 13 * 100_000)
+        env.n(13 * 10_000, 13 * 300_000)
     }
 }
 
@@ -89,7 +89,7 @@ impl RandomProp for WellFormedLarge {
         large_file_case(true)
     }
     fn cases(env: &Env) -> u64 {
-        env.n(13 * 6, 13 * 400)
+        env.n(13 * 20, 13 * 800)
     }
 }
 
@@ -112,7 +112,7 @@ impl RandomProp for IndexLarge {
         large_file_case(true)
     }
     fn cases(env: &Env) -> u64 {
-        env.n(13 * 8, 13 * 400)
+        env.n(13 * 20, 13 * 800)
     }
 }
 
@@ -213,7 +213,7 @@ impl RandomProp for IndexAddresses {
         })
     }
     fn cases(env: &Env) -> u64 {
-        env.n(13 * 2000, 13 * 60_000)
+        env.n(13 * 8000, 13 * 200_000)
     }
 }
 
